@@ -161,29 +161,53 @@ def counter(cls_method=("Model", "batch_evaluate_log_likelihood")):
     return "[" + "; ".join(effs) + "]"
 
 
+FUNC_IDS = {"self.log_likelihood": "FLik", "self.log_prior": "FPrior", "self.log_prior_unit_hypercube": "FPriorUH"}
+FLAG_IDS = {
+    "self.allow_vectorised and self.vectorised_likelihood": "FLik", "self.vectorised_likelihood": "FLik",
+    "self.allow_vectorised_prior and self.vectorised_prior": "FPrior", "self.vectorised_prior": "FPrior",
+    "self.allow_vectorised_prior and self.vectorised_prior_unit_hypercube": "FPriorUH",
+    "self.vectorised_prior_unit_hypercube": "FPriorUH",
+}
+WRAP_IDS = {"log_likelihood_wrapper": "FLik", "log_prior_wrapper": "FPrior",
+            "log_prior_unit_hypercube_wrapper": "FPriorUH"}
+WRAP_BODY = {"log_likelihood_wrapper": "_model.log_likelihood(x)", "log_prior_wrapper": "_model.log_prior(x)",
+             "log_prior_unit_hypercube_wrapper": "_model.log_prior_unit_hypercube(x)"}
+
+
 def model_calls():
-    """How the three Model.batch_evaluate_* methods call batch_evaluate_function (informational + checked)."""
+    """The three Model.batch_evaluate_* methods as (function, flag, wrapper, unit map, counts) -> Coq value."""
     mod, _ = parse("nessai/model.py")
-    out = {}
-    expect = {
-        "batch_evaluate_log_likelihood": ("self.log_likelihood", True),
-        "batch_evaluate_log_prior": ("self.log_prior", True),
-        "batch_evaluate_log_prior_unit_hypercube": ("self.log_prior_unit_hypercube", False),
-    }
-    for name, (fattr, has_unit) in expect.items():
+    mp, _ = parse("nessai/utils/multiprocessing.py")
+    for w, body in WRAP_BODY.items():
+        fn = find_function(mp, w)
+        rets = [s for s in strip_doc(fn.body) if isinstance(s, ast.Return)]
+        if len(rets) != 1 or unparse(rets[0].value) != body:
+            raise Declined(f"{w} does not simply return {body}")
+    methods = {"batch_evaluate_log_likelihood": "FLik", "batch_evaluate_log_prior": "FPrior",
+               "batch_evaluate_log_prior_unit_hypercube": "FPriorUH"}
+    items, text = [], {}
+    for name, want in methods.items():
         fn = find_function(mod, name, cls="Model")
         calls = [n for n in ast.walk(fn) if isinstance(n, ast.Call) and dotted(n.func) == "batch_evaluate_function"]
         if len(calls) != 1:
             raise Declined(f"{name}: expected one call of batch_evaluate_function")
         c = calls[0]
-        if unparse(c.args[0]) != fattr or unparse(c.args[1]) != "x":
-            raise Declined(f"{name}: unexpected positional arguments {unparse(c)}")
-        unit = [n for n in ast.walk(fn) if isinstance(n, ast.If) and unparse(n.test) == "unit_hypercube"
-                and [unparse(b) for b in n.body] == ["x = self.from_unit_hypercube(x)"]]
-        if has_unit and len(unit) != 1:
-            raise Declined(f"{name}: unit_hypercube mapping not found")
-        out[name] = unparse(c)
-    return out
+        args = {i: unparse(a) for i, a in enumerate(c.args)}
+        kws = {k.arg: unparse(k.value) for k in c.keywords}
+        func = args.get(0, kws.get("func"))
+        xarg = args.get(1, kws.get("x"))
+        flag = args.get(2, kws.get("vectorised"))
+        wrap = kws.get("func_wrapper")
+        if func not in FUNC_IDS or flag not in FLAG_IDS or wrap not in WRAP_IDS or xarg != "x":
+            raise Declined(f"{name}: argument without a rule in {unparse(c)}")
+        unit = any(isinstance(n, ast.If) and unparse(n.test) == "unit_hypercube"
+                   and [unparse(b) for b in n.body] == ["x = self.from_unit_hypercube(x)"] for n in ast.walk(fn))
+        counts = any(isinstance(n, ast.AugAssign) and dotted(n.target) == "self.likelihood_evaluations"
+                     for n in ast.walk(fn))
+        items.append(f"({want}, {{| m_func := {FUNC_IDS[func]}; m_flag := {FLAG_IDS[flag]}; m_wrapper := {WRAP_IDS[wrap]}; "
+                     f"m_unit_map := {'true' if unit else 'false'}; m_counts := {'true' if counts else 'false'} |}})")
+        text[name] = unparse(c)
+    return "[" + "; ".join(items) + "]", text
 
 
 if __name__ == "__main__":
